@@ -240,6 +240,9 @@ class FwdRig(object):
         global FABRIC
         self.tag, self.with_rpc = tag, with_rpc
         self.handles = {}                                # pilot id -> real Pilot (client side)
+        self.advances = []                               # bulks published through advance()
+        self.updates  = {}                               # (side, uid, state) -> state updates seen
+        self._sync_drain = True
         self.sides  = [CLIENT] + [pilot_id(i) for i in range(npilots)]
         self.kinds  = list(KINDS)
         self.fab    = Fabric()
@@ -395,13 +398,19 @@ class FwdRig(object):
         finally:
             outs, fab.ctx, fab.outs = fab.outs, None, None
         self._log_publish(pub.side, pub.bridge.kind, gid, outs, self._sync_via)
-        if not self.drain(self._sync_rng):
+        if self._sync_drain and not self.drain(self._sync_rng):
             raise RigError('messages circulate')
 
     def _app_cb(self, side, kind):
         def cb(topic, msg):
             gid = self.fab.ctx.gid
             self.got[side][gid] = self.got[side].get(gid, 0) + 1
+            if kind == 'state' and isinstance(msg, dict) and msg.get('cmd') == 'update':
+                # what a state subscriber (task manager, ...) of this side learns
+                for t in ru.as_list(msg.get('arg')):
+                    if isinstance(t, dict) and 'uid' in t:
+                        k = (side, t['uid'], t.get('state'))
+                        self.updates[k] = self.updates.get(k, 0) + 1
             if self.with_rpc and kind == 'control':
                 # the component of this side: REAL _control_cb -> _handle_rpc_msg
                 self.comps[side]._control_cb(topic, msg)
@@ -531,6 +540,44 @@ class FwdRig(object):
             outs, fab.ctx, fab.outs = fab.outs, None, None
         return self._log_publish(side, kind, gid, outs, via)
 
+    def advance_bulk(self, side, tasks, state, fwd=True, push=False, preset=False):
+        '''the publication API of the components: REAL (Agent|Client)Component
+           .advance(things, state, publish=True, push=.., fwd=..) for a bulk of tasks
+           [(uid, origin)] - origin 'client', 'raptor' or 'agent'.  However many
+           messages the call publishes, each is a Publish step of its own; nothing
+           is delivered yet.  preset: the state is set on the things, not passed'''
+        comp   = self.comps[side]
+        things = [{'uid': uid, 'type': 'task', 'state': state if preset else rps.NEW,
+                   'origin': origin, 'description': {}} for uid, origin in tasks]
+
+        class Out(object):
+            channel = 'verif_output'
+            def put(self, things, qname=None): pass
+        comp._outputs = {state: Out()}
+        self._sync_rng, self._sync_via, self._sync_drain = None, 'advance', False
+        self.fab.sync = self
+        try:
+            kw = {} if fwd is None else {'fwd': fwd}
+            comp.advance(things, None if preset else state, publish=True, push=push, ts=1, **kw)
+        finally:
+            self.fab.sync, self._sync_drain = None, True
+        asked = fwd is True or (fwd is None and side != CLIENT)
+        self.advances.append({'side': side, 'asked': asked,
+                              'tasks': [(t['uid'], t['origin'], t['state']) for t in things]})
+
+    def log_updates(self):
+        '''at rest: how often the client side saw the update of each of ITS tasks
+           that a pilot published with the forward flag'''
+        for a in self.advances:
+            if a['side'] == CLIENT or not a['asked']:
+                continue
+            for uid, origin, state in a['tasks']:
+                if origin == 'client':
+                    self.events.append({'ev': 'Update', 'side': CLIENT, 'uid': uid, 'state': str(state),
+                                        'from': a['side'],
+                                        'n': self.updates.get((CLIENT, uid, state), 0)})
+        self.advances = []
+
     def publish_advance(self, side, fwd=None):
         '''a state update through the real (Agent|Client)Component.advance;
            fwd=None uses the default of the class'''
@@ -612,6 +659,8 @@ class FwdRig(object):
         return ev
 
     def quiet(self, drained=True):
+        if drained:
+            self.log_updates()
         ev = {'ev': 'Quiet', 'drained': bool(drained), 'left': self.fab.inflight()}
         self.events.append(ev)
         return ev
@@ -685,16 +734,16 @@ class ProxyRig(object):
         self.with_rpc = with_rpc
         self._pass    = 0
 
-        px = rp_proxy.Proxy.__new__(rp_proxy.Proxy)
-        px._lock, px._term, px._clients = mt.Lock(), mt.Event(), {}
-        px._log, px._path, px._uid = rpshim.NullLog(), '/tmp', 'radical.pilot.proxy'
-        self.proxy = px
+        self.all_workers = []   # every worker ever spawned, in spawn order
+        self.mode        = 'intime'   # how the next spawned worker reports its endpoints
+        self.requests    = {}   # request name -> handler, as the real constructor registers them
         rig = self
 
         class Process(object):
             def __init__(self, target=None, args=()):
                 self.sid, self.q, self.term = args[0], args[1], args[2]
-                self.joined, self.rig = False, None
+                self.joined, self.rig, self.killed, self.reported = False, None, False, False
+                self.mode = rig.mode
             def start(self):
                 # Proxy._worker: start the session's proxy pubsubs, announce their addresses
                 n = len([1 for r in rig.rigs if r[0] == self.sid])
@@ -706,12 +755,22 @@ class ProxyRig(object):
                 rig.rigs.append((self.sid, n, self.rig))
                 rig.workers[self.sid] = self
                 rig.cfgs[self.sid]    = cfg
-                self.q.put(cfg)
+                rig.all_workers.append(self)
+                self.cfg = cfg
+                if self.mode == 'intime':
+                    self.report()
+            def report(self):
+                # q.put(cfg) of Proxy._worker: in time, or late (the put raced the kill)
+                self.reported = True
+                self.q.put(self.cfg)
             def shutdown(self):
                 for b in self.rig.proxy.values():
                     b.down = True
+            def is_up(self): return not self.killed and not self.term.is_set()
             def join(self, timeout=None): self.joined = True
-            def terminate(self): self.term.set()
+            def terminate(self):
+                self.killed = True
+                self.shutdown()
 
         class MP(object):
             Queue, Event = _Queue, _Term
@@ -724,6 +783,31 @@ class ProxyRig(object):
             def sleep(x): pass
 
         self._mp, self._time = MP, Time
+
+        # the service object through its REAL constructor: only the zmq server base
+        # class and the monitor thread are stand-ins (the monitor loop is run pass
+        # by pass by the rig)
+        class Thread(object):
+            def __init__(self, target=None, args=(), **kw): self.daemon = False
+            def start(self): pass
+
+        class MT(object):
+            def __getattr__(self, k): return getattr(mt, k)
+        MT.Thread = Thread
+
+        def server_init(srv, uid=None, url=None, path=None, **kw):
+            srv._uid, srv._url, srv._path, srv._log = uid, url, path or '/tmp', rpshim.NullLog()
+
+        def register_request(srv, name, cb):
+            rig.requests[name] = cb
+
+        with mock.patch.object(rp_proxy, 'mp', MP), mock.patch.object(rp_proxy, 'mt', MT()), \
+             mock.patch.object(ru.zmq.Server, '__init__', server_init), \
+             mock.patch.object(ru.zmq.Server, 'register_request', register_request):
+            self.proxy = rp_proxy.Proxy(path='/tmp')
+        for name in ('register', 'lookup', 'unregister', 'heartbeat'):
+            if name not in self.requests:
+                raise RigError('Proxy() registers no %r request' % name)
 
     # ----------------------------------------------------------------------
     def _patched(self):
@@ -739,12 +823,17 @@ class ProxyRig(object):
             c = self.proxy._clients.get(sid)
             w = self.workers.get(sid)
             hb = int(round((c['hb'] - self.T0) / self.tick)) if c else 0
-            out.append({'reg': bool(c), 'up': bool(w and not w.term.is_set()), 'hb': max(hb, 0)})
+            out.append({'reg': bool(c), 'up': bool(w and w.is_up()), 'hb': max(hb, 0)})
         return out
 
-    def _log(self, op, sid, ok=True, cfgok=True):
+    def own_cfg(self, sid):
+        '''endpoints of the live channel worker of the session (None: it has none)'''
+        w = self.workers.get(sid)
+        return w.cfg if w and w.is_up() else None
+
+    def _log(self, op, sid, ok=True, cfgok=True, mode='intime'):
         ev = {'op': op, 'sid': sid, 'now': self.now, 'ok': bool(ok), 'cfgok': bool(cfgok),
-              'st': self.state()}
+              'mode': mode, 'st': self.state()}
         self.events.append(ev)
         return ev
 
@@ -759,9 +848,19 @@ class ProxyRig(object):
                 ok = False
         return res, ok
 
-    def register(self, sid):
-        res, ok = self._request('Register', self.proxy._register, sid)
-        ev = self._log('Register', sid, ok, (not ok) or res == self.cfgs.get(sid))
+    def register(self, sid, mode='intime'):
+        '''mode: the spawned worker reports its endpoints 'intime', 'late' (after
+           the registration gave up and killed it: see late_report) or "never" '''
+        self.mode = mode
+        res, ok = self._request('Register', self.requests['register'], sid)
+        self.mode = 'intime'
+        good = (not ok) or res == self.own_cfg(sid)
+        ev = self._log('Register', sid, ok, good, mode)
+        if ok and not good:
+            # client and pilots crosswire to the endpoints they were given: not the
+            # pubsubs of their own worker - whatever they forward goes nowhere
+            for b in self.workers[sid].rig.proxy.values():
+                b.down = True
         if ok:
             # the pilots of the session find its proxy pubsubs through lookup
             for _ in range(self.npilots[sid]):
@@ -769,16 +868,26 @@ class ProxyRig(object):
         return ev
 
     def unregister(self, sid):
-        _, ok = self._request('Unregister', self.proxy._unregister, sid)
+        _, ok = self._request('Unregister', self.requests['unregister'], sid)
         return self._log('Unregister', sid, ok)
 
     def heartbeat(self, sid):
-        _, ok = self._request('Heartbeat', self.proxy._heartbeat, sid)
+        _, ok = self._request('Heartbeat', self.requests['heartbeat'], sid)
         return self._log('Heartbeat', sid, ok)
 
     def lookup(self, sid):
-        res, ok = self._request('Lookup', self.proxy._lookup, sid)
-        return self._log('Lookup', sid, ok, ok and res == self.cfgs.get(sid))
+        res, ok = self._request('Lookup', self.requests['lookup'], sid)
+        return self._log('Lookup', sid, ok, ok and res == self.own_cfg(sid))
+
+    def late_report(self, n=None):
+        '''the endpoint report of a worker which was given up arrives after all
+           (n: index in spawn order; default: the oldest one outstanding)'''
+        ws = [w for w in self.all_workers if w.mode == 'late' and not w.reported]
+        if n is not None:
+            ws = [w for w in ws if self.all_workers.index(w) == n]
+        if ws:
+            ws[0].report()
+        return self._log('Report', 'none')
 
     def tick_(self):
         self.now += 1
